@@ -112,3 +112,37 @@ def run(ctx, F, rule="E-VNM.lockstep"):
                              % (len(bad), npaths, bad[0][0], bad[0][1])) if bad else
                             "could not identify the source of the variable number inserted into `index`"))
     return npaths
+
+
+def check_clone(ctx, F, rule="E-VNM.clone"):
+    """`VarNameMap` owns every name through exactly two aliasing `Unowned<str>` pointers (one in `names`, one in
+    `index`) and frees them by hand.  A clone that copies the pointers (the derived `Clone`: `Vec<Unowned<str>>::clone`,
+    `HashMap<Unowned<str>, _>::clone`) gives two maps the same allocations: double free / dangling names from safe
+    code.  The `Clone` impl must not clone a container of `Unowned` values and must allocate fresh strings."""
+    fids = [f for f, r in F.fns.items() if f.startswith(MOD) and f.endswith("::clone")
+            and (r.get("impl") or {}).get("trait", "").endswith("Clone") and "VarNameMap" in (r.get("impl") or {}).get("self", "")]
+    if not fids:
+        ctx.ob(rule, rule + ":VarNameMap", True, "VarNameMap does not implement Clone", nontrivial=False)
+        return 0
+    fid = fids[0]
+    m = F.mir.get(fid)
+    if not ctx.anchor(rule, "MIR of VarNameMap::clone", m is not None):
+        return 0
+    B = cfg.Body(m)
+    shallow = []
+    fresh = False
+    for i, t in B.calls():
+        cn = cfg.callee_name(t) or ""
+        decl = cfg.callee_decl(t) or ""
+        ga = " ".join(g for g in (t.get("f") or {}).get("ga", []) if isinstance(g, str))
+        if re.search(r"Clone>?::clone$", cn) and "Unowned" in (cn + " " + ga):
+            shallow.append(cn)
+        if re.search(r"Box<str>|into_boxed_str|Box::<str>|alloc::boxed::Box<str>", cn + " " + decl + " " + ga) and "Unowned" not in cn:
+            fresh = True
+    ok = not shallow and fresh
+    ctx.ob(rule, rule + ":VarNameMap", ok,
+           "%s (%s): %s" % (F.nice(fid), F.where(fid),
+                            "allocates a fresh string per name" if ok else
+                            ("clones a container of Unowned<str> pointers (%s): both maps own the same allocations"
+                             % shallow[0][:80]) if shallow else "no fresh Box<str> is created for the names of the clone"))
+    return 1
